@@ -1883,6 +1883,20 @@ SEXP_API sexp sexp_finalize (sexp ctx);
 #endif
 #endif
 
+#if SEXP_VERIF_SIM
+/* Verification-only seams (off unless built with -DSEXP_VERIF_SIM=1). */
+/* Every pointer is NULL unless a simulator installs it, in which case */
+/* behaviour is unchanged. */
+struct sexp_verif_hooks_t {
+  void (*alloc)(sexp ctx, size_t size);      /* entry of sexp_alloc, may call sexp_gc */
+  void (*took)(sexp ctx, void *chunk, size_t size, size_t chunk_size); /* sexp_try_alloc found a fit */
+  void (*done)(sexp ctx, void *res, size_t req_size, size_t size);     /* sexp_alloc about to return */
+  void (*gc)(sexp ctx, int phase);           /* 0: start, 1: after mark+weak reset, 2: after sweep */
+  void (*heap)(sexp_heap h, int created);    /* end of sexp_make_heap / start of sexp_free_heap */
+};
+SEXP_API struct sexp_verif_hooks_t sexp_verif_hooks;
+#endif
+
 #if SEXP_USE_GLOBAL_HEAP
 #define sexp_free_heap(heap)
 #define sexp_debug_heap_stats(heap)
